@@ -268,3 +268,66 @@ def graph_by_some_history(n, edges):
     if extra:
         G.remove_edge(*extra)
     return G
+
+
+# ---------------------------------------------------------------------------------------------------------------
+# size probes derived from the CURRENT source: integer constants that an implementation compares sizes with
+# (thresholds of fast paths, buffer sizes, cache limits).  Generators ask `probe_sizes(files, lo, hi)` for the
+# values c-1, c, c+1 (and 2^c-1, 2^c, 2^c+1 for small c) of every such constant c that lie in their feasible
+# range, so that a threshold introduced by a code change is crossed by the very next run.  Heuristic input
+# selection only: it never decides anything.
+
+_CONST_CACHE = {}
+
+
+def source_constants(files):
+    """sorted integer constants (>= 2) occurring in comparisons, shifts, `range`/slice bounds, `maxsize=` keywords
+    and assignments to ALL_CAPS names in the given files (paths relative to the package root `cnfgen/`)"""
+    import ast
+    key = tuple(files)
+    if key in _CONST_CACHE:
+        return _CONST_CACHE[key]
+    found = set()
+
+    def ints(node):
+        for n in ast.walk(node):
+            if isinstance(n, ast.Constant) and isinstance(n.value, int) and not isinstance(n.value, bool):
+                if 2 <= n.value <= 1 << 40:
+                    found.add(n.value)
+            elif isinstance(n, ast.BinOp) and isinstance(n.op, (ast.LShift, ast.Pow)):
+                try:
+                    v = eval(compile(ast.Expression(n), "<const>", "eval"), {"__builtins__": {}})
+                    if isinstance(v, int) and 2 <= v <= 1 << 40:
+                        found.add(v)
+                except Exception:
+                    pass
+
+    for rel in files:
+        path = os.path.join(REPO, "cnfgen", rel)
+        try:
+            tree = ast.parse(open(path, encoding="utf-8").read())
+        except (OSError, SyntaxError):
+            continue
+        for n in ast.walk(tree):
+            if isinstance(n, ast.Compare):
+                ints(n)
+            elif isinstance(n, ast.Assign) and all(isinstance(t, ast.Name) and t.id.upper() == t.id for t in n.targets):
+                ints(n.value)
+            elif isinstance(n, ast.keyword) and n.arg in ("maxsize", "chunksize", "bufsize", "buffering", "limit"):
+                ints(n.value)
+            elif isinstance(n, ast.Call) and isinstance(n.func, ast.Attribute) and n.func.attr in ("read", "readlines"):
+                for a in n.args:
+                    ints(a)
+    _CONST_CACHE[key] = sorted(found)
+    return _CONST_CACHE[key]
+
+
+def probe_sizes(files, lo, hi, powers=True):
+    """values around the source constants (see above) inside [lo, hi], ascending, without duplicates"""
+    out = set()
+    for c in source_constants(files):
+        cand = [c - 1, c, c + 1]
+        if powers and c <= 40:
+            cand += [(1 << c) - 1, 1 << c, (1 << c) + 1]
+        out.update(v for v in cand if lo <= v <= hi)
+    return sorted(out)
